@@ -108,7 +108,8 @@ impl Sm {
 
 #[derive(Clone, PartialEq, Debug)]
 struct Config {
-    /// "helper" | "missing" | "notexec" | "dir"
+    /// "helper" | "missing" | "notexec" | "dir" | "rel:<relative path>" (the caller then runs with cwd =
+    /// Ctx::caller_dir; copies of the program exist under some relative paths there and/or in Ctx::cwd_dir)
     bin: String,
     args: Vec<Vec<u8>>,
     /// None: `env`/`envs` never called; Some(v): `envs(v)` (v may be empty)
@@ -197,6 +198,11 @@ impl Config {
         if self.closure == "fail" {
             return Some(("closure".into(), CLOSURE_ERRNO));
         }
+        if let Some(rel) = self.bin.strip_prefix("rel:") {
+            // execve runs in the child AFTER chdir: a relative path is resolved against the configured cwd
+            let in_configured = self.cwd == "dir";
+            return if rel_exists(rel, in_configured) { None } else { Some(("child-execve".into(), libc::ENOENT)) };
+        }
         match self.bin.as_str() {
             "missing" => Some(("child-execve".into(), libc::ENOENT)),
             "notexec" | "dir" => Some(("child-execve".into(), libc::EACCES)),
@@ -212,6 +218,23 @@ impl Config {
     fn drops_both_ids(&self) -> bool {
         self.uid == "nobody" && self.gid == "nobody"
     }
+}
+
+/// relative program paths the harness lays out: (path, exists under the caller's cwd, exists under the configured cwd)
+const REL_PROGRAMS: [(&str, bool, bool); 9] = [
+    ("onlyA/spawn-helper", true, false),
+    ("onlyB/spawn-helper", false, true),
+    ("both/spawn-helper", true, true),
+    ("./both/spawn-helper", true, true),
+    ("neither/spawn-helper", false, false),
+    // bare names: execve does no PATH search, they are relative to the cwd like any other
+    ("spawn-helper", true, true),
+    ("spawn-helper-a", true, false),
+    ("spawn-helper-b", false, true),
+    ("spawn-helper-none", false, false),
+];
+fn rel_exists(rel: &str, in_configured_cwd: bool) -> bool {
+    REL_PROGRAMS.iter().find(|p| p.0 == rel).map(|p| if in_configured_cwd { p.2 } else { p.1 }).unwrap_or(false)
 }
 
 #[derive(Clone, PartialEq, Debug)]
@@ -328,6 +351,8 @@ struct Shm {
     fault_nr_mismatch: AtomicU32,
     fault_seen_nr: AtomicI64,
     site_applied: AtomicU32,
+    /// waitseq: (step index + 1) << 8 | letter, written before each step (tells where a hang happened)
+    ws_progress: AtomicU32,
     trace_n: AtomicU32,
     obs_len: AtomicU32,
     trace: [TraceEnt; TRACE_CAP],
@@ -422,6 +447,8 @@ struct Ctx {
     helper: String,
     helper_src: String,
     cwd_dir: String,
+    /// the caller's own cwd in the relative-program configurations
+    caller_dir: String,
     thorough: bool,
     root_user: bool,
 }
@@ -436,6 +463,9 @@ impl Ctx {
         format!("{}/notexec", self.root)
     }
     fn bin_path(&self, cfg: &Config) -> String {
+        if let Some(rel) = cfg.bin.strip_prefix("rel:") {
+            return rel.to_string();
+        }
         match cfg.bin.as_str() {
             "helper" => self.helper.clone(),
             "missing" => self.missing_bin(),
@@ -469,7 +499,30 @@ fn make_ctx(thorough: bool) -> Ctx {
     let helper_src = if src == me { "a copy of the harness executable run under the name spawn-helper (no spawn-helper binary built from the same sources next to the harness)".to_string() } else { format!("a copy of {}", src.display()) };
     std::fs::copy(&src, &helper).expect("copy helper");
     chmod(&helper, 0o755);
-    Ctx { root, helper, helper_src, cwd_dir, thorough, root_user: unsafe { libc::geteuid() } == 0 }
+    // copies (hard links) of the program under relative paths in the caller's cwd and in the configured cwd;
+    // which copy runs shows in the dump (/proc/self/exe)
+    let caller_dir = format!("{root}/caller-cwd");
+    std::fs::create_dir_all(&caller_dir).unwrap();
+    chmod(&caller_dir, 0o755);
+    for (rel, in_a, in_b) in REL_PROGRAMS {
+        for (dir, there) in [(&caller_dir, in_a), (&cwd_dir, in_b)] {
+            if !there {
+                continue;
+            }
+            let path = std::path::Path::new(dir).join(rel.trim_start_matches("./"));
+            if path.exists() {
+                continue;
+            }
+            if let Some(parent) = path.parent() {
+                std::fs::create_dir_all(parent).unwrap();
+                chmod(&parent.to_string_lossy(), 0o755);
+            }
+            if std::fs::hard_link(&helper, &path).is_err() {
+                std::fs::copy(&helper, &path).expect("copy of the program under a relative path");
+            }
+        }
+    }
+    Ctx { root, helper, helper_src, cwd_dir, caller_dir, thorough, root_user: unsafe { libc::geteuid() } == 0 }
 }
 
 /// Run a candidate helper once (outside any spawn under test) and see whether its dump carries this
@@ -658,6 +711,12 @@ fn exec_case(ctx: &Ctx, sdir: &str, shm: *mut Shm, shard_pgid: i32, cfg: &Config
         for k in 0..3 {
             if cfg.closed[k] {
                 libc::close(k as i32);
+            }
+        }
+        if cfg.bin.starts_with("rel:") {
+            let c = CString::new(ctx.caller_dir.as_str()).unwrap();
+            if libc::chdir(c.as_ptr()) != 0 {
+                finish(shm, &json!({"machinery": "could not enter the caller's cwd"}));
             }
         }
         let parent_ident: Vec<Value> = (0..3).map(helper::fd_ident).collect();
@@ -1026,6 +1085,18 @@ fn judge_ok(ctx: &Ctx, cfg: &Config, obs: &Value, r: &mut Report, rp: &Value) {
         (Some(_), true) => "env-provided-over-inherit",
         (Some(_), false) => "env-provided",
     });
+    // the requested program: a relative path names the file under the cwd the child has when it execs
+    let want_exe = match cfg.bin.strip_prefix("rel:") {
+        Some(rel) => format!("{}/{}", if cfg.cwd == "dir" { &ctx.cwd_dir } else { &ctx.caller_dir }, rel.trim_start_matches("./")),
+        None => ctx.bin_path(cfg),
+    };
+    let got_exe = unhex(h["exe"].as_str().unwrap_or(""));
+    if got_exe != want_exe.as_bytes() {
+        r.violation("C13:spawn:wrong-program-run", format!("the child executes \"{}\" but the configured program is \"{}\" (path \"{}\", cwd {})", show_bytes(&got_exe), want_exe, ctx.bin_path(cfg), cfg.cwd), rp.clone());
+    }
+    if cfg.bin.starts_with("rel:") {
+        r.outcome(if cfg.cwd == "dir" { "ok-relative-program-under-configured-cwd" } else { "ok-relative-program-under-callers-cwd" });
+    }
     let want_cwd = if cfg.cwd == "dir" { ctx.cwd_dir.clone().into_bytes() } else { unhex(obs["parent_cwd"].as_str().unwrap_or("")) };
     let got_cwd = unhex(h["cwd"].as_str().unwrap_or(""));
     if got_cwd != want_cwd {
@@ -1555,7 +1626,10 @@ fn check_config(sh: &Shard, job: &Job, r: &mut Report) {
     let mut faults = faults_of_trace(&obs, job.full_menu);
     faults.extend(site_faults_of_trace(&obs, &[]));
     if job.child_only {
-        faults.retain(|f| f.child);
+        // (quick, descriptor-aliasing family) one errno per child-side call, no repeated-EINTR runs: those
+        // are enumerated on the 125 stdio triples
+        let mut seen_idx: HashSet<usize> = HashSet::new();
+        faults.retain(|f| f.child && f.site.is_none() && seen_idx.insert(f.idx));
     }
     let mut firsts: Vec<(Fault, Value)> = Vec::new();
     for f in &faults {
@@ -1750,6 +1824,18 @@ fn ladders(thorough: bool) -> Vec<Config> {
 
 /// (1) the caller has closed a non-empty subset of {0,1,2} x every stream in {Inherit, Null, MakePipe, RawFd};
 /// (2) one stream is RawFd(k), k in 0..=2, the other two in {Inherit, MakePipe, Null}.  Fault-free.
+/// program-path shapes x cwd: absolute is the base command; relative paths (with and without a slash)
+/// that exist under the caller's cwd only / the configured cwd only / both / neither, x cwd in {unset, dir}
+fn program_paths() -> Vec<Config> {
+    let mut v = Vec::new();
+    for (rel, _, _) in REL_PROGRAMS {
+        for cwd in ["unset", "dir"] {
+            v.push(Config { bin: format!("rel:{rel}"), cwd: cwd.into(), ..Config::base() });
+        }
+    }
+    v
+}
+
 fn descriptor_aliasing() -> Vec<Config> {
     let mut v = Vec::new();
     let grid = [Sm::Inherit, Sm::Null, Sm::Pipe, Sm::Raw];
@@ -1857,6 +1943,9 @@ fn jobs(ctx: &Ctx) -> Vec<Job> {
     for c in stdio_triples() {
         add(c, true, t, false, &mut out);
     }
+    for c in program_paths() {
+        add(c, true, t, false, &mut out);
+    }
     for c in ladders(t) {
         add(c, false, false, false, &mut out);
     }
@@ -1919,6 +2008,7 @@ fn c13(args: &Args) -> Report {
     r.bound("shards", n_shards as u64);
     r.bound("deviations", if args.thorough { "every single call of parent and child x full errno menu for the single-factor configurations and the 125 stdio triples, x 1-2 errnos for the product; pairs (second deviation after the first, full menu) for the base command and the all-pipes command" } else { "every single call of parent and child x 1-2 errnos, for every configuration" });
     r.bound("args", "0..2 arguments incl. empty string and non-UTF-8 bytes; count ladder (fault-free) n = 0..=70 (thorough 0..=300) + {127,128,129,255,256,257,1000} (thorough + 511..513, 1023..1025, 4096), argument i = \"a<i>\"; the same ladder for provided environment entries \"E<i>=v<i>\"");
+    r.bound("program_paths", "absolute; relative (9 shapes: with a directory part, with ./, bare names) present under the caller's cwd only / the configured cwd only / both / neither, x cwd {unset, a directory != the caller's cwd}; which copy runs is read from /proc/self/exe of the program");
     r.bound("descriptor_aliasing", "caller closed every non-empty subset of {0,1,2} before spawn x each stream in {Inherit, Null, MakePipe, RawFd(fresh file)} (448); one stream RawFd(k), k in 0..=2, the others in {Inherit, MakePipe, Null} (81); each fault-free, with a nonexistent program (execve ENOENT), and with every child-side call (close, fcntl F_DUPFD_CLOEXEC / F_SETFD, dup3, execve) failing (thorough: every call of both sides, full menus); the program reports 0/1/2 as exec left them");
     r.bound("repeated_deviations", "every interruptible call site (read of the sync pipe, dup3, wait4 on the failure path) answers EINTR 1,2,3,5 times in a row, matched by (syscall, descriptor)");
     r.note("the harness runs under a global allocator that fills every fresh block and 16 bytes of slack behind it with 0xA5: an unterminated argv/envp vector reaches execve as a wild pointer instead of ending at an accidental zero word");
@@ -1962,10 +2052,17 @@ struct WsCase {
     fault_k: Option<usize>,
     /// how many consecutive wait4 calls, from the k-th on, answer EINTR
     times: usize,
+    /// who holds the child's stdin: "held" (MakePipe, the harness holds the parent end; X releases),
+    /// "inherit" (the caller's own stdin, /dev/null), "null", "pipe-kept" (MakePipe left inside `Child`),
+    /// "pipe-dropped" (MakePipe, taken out and dropped by the caller), "pipe-written-kept" (written to, left inside)
+    stdin: String,
+    /// what the program does: "eof" (read stdin to EOF, then end), "now" (end at once), "spew-file" /
+    /// "spew-pipe" (100 000 bytes to stdout = the caller's file / a pipe the caller drains), "sleep" (60 ms, then end)
+    behaviour: String,
 }
 impl WsCase {
     fn to_json(&self) -> Value {
-        json!({"op": "waitseq", "variant": if WITH_START { "start" } else { "nostart" }, "seq": self.seq, "status": self.status, "mode": self.mode, "fault_k": self.fault_k, "times": self.times})
+        json!({"op": "waitseq", "variant": if WITH_START { "start" } else { "nostart" }, "seq": self.seq, "status": self.status, "mode": self.mode, "fault_k": self.fault_k, "times": self.times, "stdin": self.stdin, "behaviour": self.behaviour})
     }
     fn from_json(v: &Value) -> WsCase {
         WsCase {
@@ -1974,6 +2071,8 @@ impl WsCase {
             mode: v["mode"].as_str().unwrap_or("X").into(),
             fault_k: v["fault_k"].as_u64().map(|k| k as usize),
             times: v["times"].as_u64().unwrap_or(1) as usize,
+            stdin: v["stdin"].as_str().unwrap_or("held").into(),
+            behaviour: v["behaviour"].as_str().unwrap_or("eof").into(),
         }
     }
     /// values the API may report for the child's end: the raw wait status, or the exit-code convention
@@ -2056,12 +2155,35 @@ fn exec_waitseq(ctx: &Ctx, sdir: &str, shm: *mut Shm, case: &WsCase) -> ! {
             _ => b"--kill=9".as_slice(),
         });
         let linger_arg = nul(format!("--linger={LINGER_MS}").as_bytes());
+        let no_stdin_arg = nul(b"--no-stdin");
+        let spew_arg = nul(b"--spew=100000");
         let mut cmd = Command::new(UnixStr::try_from_bytes(&bin_b).expect("bin")).expect("Command::new");
         cmd.arg(UnixStr::try_from_bytes(&status_arg).expect("arg"));
-        if case.mode == "R" {
+        if case.mode == "R" || case.behaviour == "sleep" {
             cmd.arg(UnixStr::try_from_bytes(&linger_arg).expect("arg"));
         }
-        cmd.stdin(Stdio::MakePipe);
+        if case.behaviour != "eof" {
+            cmd.arg(UnixStr::try_from_bytes(&no_stdin_arg).expect("arg"));
+        }
+        if case.behaviour.starts_with("spew") {
+            cmd.arg(UnixStr::try_from_bytes(&spew_arg).expect("arg"));
+        }
+        if case.behaviour == "spew-pipe" {
+            cmd.stdout(Stdio::MakePipe);
+        }
+        match case.stdin.as_str() {
+            "inherit" => {
+                if !open_at_fd("/dev/null", libc::O_RDONLY, 0) {
+                    finish(shm, &json!({"machinery": "could not open /dev/null as the caller's stdin"}));
+                }
+            }
+            "null" => {
+                cmd.stdin(Stdio::Null);
+            }
+            _ => {
+                cmd.stdin(Stdio::MakePipe);
+            }
+        }
         // the spawn itself is not the subject here: no seam
         let mut child = match catch(|| cmd.spawn()) {
             Ok(Ok(c)) => c,
@@ -2069,14 +2191,37 @@ fn exec_waitseq(ctx: &Ctx, sdir: &str, shm: *mut Shm, case: &WsCase) -> ! {
             Err(p) => finish(shm, &json!({"machinery": format!("spawn of the controlled child panicked: {p}")})),
         };
         let pid = child.get_pid();
-        // the harness, not `Child`, decides when the child's stdin reaches EOF
-        let mut hold = child.stdin.take();
-        if hold.is_none() {
-            finish(shm, &json!({"machinery": "Child.stdin is None although stdin = MakePipe"}));
+        let mut hold = None;
+        match case.stdin.as_str() {
+            "held" => {
+                // the harness, not `Child`, decides when the child's stdin reaches EOF
+                hold = child.stdin.take();
+                if hold.is_none() {
+                    finish(shm, &json!({"machinery": "Child.stdin is None although stdin = MakePipe"}));
+                }
+            }
+            "pipe-dropped" => drop(child.stdin.take()),
+            "pipe-written-kept" => {
+                if let Some(p) = &child.stdin {
+                    let fd = p.borrow_fd().as_raw_fd().value();
+                    libc::write(fd, PIPE_STDIN.as_ptr() as *const libc::c_void, PIPE_STDIN.len());
+                }
+            }
+            _ => {}
+        }
+        if case.behaviour == "spew-pipe" {
+            // a caller that drains the child's output before it waits
+            if let Some(p) = child.stdout.take() {
+                let (d, _) = read_fd_all(p.borrow_fd().as_raw_fd().value());
+                if d.len() < 100_000 {
+                    finish(shm, &json!({"machinery": format!("drained only {} bytes of the program's output", d.len())}));
+                }
+            }
         }
         let mut plan = WaitPlan { fault_k: case.fault_k, times: case.times, seen: 0, hit: false, applied: 0 };
         let mut recs: Vec<Value> = Vec::new();
-        for op in &case.seq {
+        for (step_no, op) in case.seq.iter().enumerate() {
+            (*shm).ws_progress.store(((step_no as u32 + 1) << 8) | op.as_bytes()[0] as u32, SeqCst);
             let seen_before = plan.seen;
             let applied_before = plan.applied;
             let mut rec = json!({"op": op});
@@ -2116,9 +2261,11 @@ fn exec_waitseq(ctx: &Ctx, sdir: &str, shm: *mut Shm, case: &WsCase) -> ! {
             rec["fault_here"] = json!(plan.applied > applied_before);
             recs.push(rec);
         }
+        (*shm).ws_progress.store(0, SeqCst);
         // clean up: release, let it end, reap whatever the API left
-        drop(hold.take());
         let final_state = child_state(pid);
+        drop(hold.take());
+        drop(child.stdin.take());
         let mut st = 0;
         let reaped_by_harness = loop {
             let r = libc::waitpid(pid, &mut st, 0);
@@ -2136,14 +2283,32 @@ fn exec_waitseq(ctx: &Ctx, sdir: &str, shm: *mut Shm, case: &WsCase) -> ! {
     }
 }
 
+/// run one waitseq case; a hang is reported with the step it happened in ("hang@<step>:<letter>")
+fn run_waitseq(sh: &Shard, case: &WsCase) -> Result<Value, String> {
+    let res = sh.run_p(|| exec_waitseq(&sh.ctx, &sh.sdir, sh.shm, case));
+    match res {
+        Err(e) if e == "hang" => {
+            let p = unsafe { (*sh.shm).ws_progress.load(SeqCst) };
+            Err(if p == 0 { "hang@outside:-".to_string() } else { format!("hang@{}:{}", (p >> 8) - 1, (p & 0xff) as u8 as char) })
+        }
+        other => other,
+    }
+}
+
 fn judge_waitseq(case: &WsCase, res: &Result<Value, String>, r: &mut Report) {
     let rp = case.to_json();
-    let what = format!("[{}] on a child that ends with {} (release mode {}{})", case.seq.join(" "), case.status, case.mode, case.fault_k.map(|k| format!(", wait4 #{k} answers EINTR {}x in a row", case.times)).unwrap_or_default());
+    let what = format!("[{}] on a child ({}, stdin {}) that ends with {} (release mode {}{})", case.seq.join(" "), case.behaviour, case.stdin, case.status, case.mode, case.fault_k.map(|k| format!(", wait4 #{k} answers EINTR {}x in a row", case.times)).unwrap_or_default());
     let obs = match res {
         Ok(o) => o,
-        Err(e) if e == "hang" => {
+        Err(e) if e.starts_with("hang") => {
             r.outcome("hang");
-            r.violation("C13:waitseq:hang", format!("{what}: no result within {CASE_ALARM}s"), rp);
+            // a wait that never reports: the step that hung is a W (the child's end was in nobody's way: every
+            // enumerated case is one where the caller does not block the child itself)
+            if e.ends_with(":W") {
+                r.violation("C13:wait:never-returns", format!("{what}: wait did not return within {CASE_ALARM}s ({e})"), rp);
+            } else {
+                r.violation("C13:waitseq:hang", format!("{what}: no result within {CASE_ALARM}s ({e})"), rp);
+            }
             return;
         }
         Err(e) if e == "skipped" => {
@@ -2164,8 +2329,10 @@ fn judge_waitseq(case: &WsCase, res: &Result<Value, String>, r: &mut Report) {
         return;
     }
     let accepted = case.accepted();
-    let strict = case.mode == "X";
-    let mut released = false;
+    // only with stdin "held" the harness knows when the child ends; otherwise the child is free to end
+    // whenever its behaviour lets it (try_wait may see it running or ended)
+    let strict = case.mode == "X" && case.stdin == "held";
+    let mut released = case.stdin != "held";
     let mut got: Option<i64> = None; // the status the API has reported so far
     let mut flagged: HashSet<&'static str> = HashSet::new();
     let mut viol = |r: &mut Report, key: &'static str, desc: String| {
@@ -2285,14 +2452,33 @@ fn waitseq(args: &Args) -> Report {
     let ctx = make_ctx(args.thorough);
     let max_len = if args.thorough { 6 } else { 4 };
     let seqs = ws_sequences(max_len);
-    let mut groups: Vec<(Vec<String>, String, String)> = Vec::new();
+    let mut groups: Vec<WsCase> = Vec::new();
     for s in &seqs {
         for st in ["exit7", "exit0", "kill9"] {
             for mode in ["X", "R"] {
                 if mode == "R" && !s.contains(&"X".to_string()) {
                     continue; // without a release both modes are the same case
                 }
-                groups.push((s.clone(), st.into(), mode.into()));
+                groups.push(WsCase { seq: s.clone(), status: st.into(), mode: mode.into(), fault_k: None, times: 1, stdin: "held".into(), behaviour: "eof".into() });
+            }
+        }
+    }
+    // children that end by themselves (or when `wait` lets them): every sequence over {TW, W} x what the
+    // program does x who holds its stdin.  No case here is one where the CALLER blocks the child: output
+    // larger than a pipe goes to a file or is drained first, a stdin pipe left inside `Child` is `wait`'s to close.
+    let mut free_seqs: Vec<Vec<String>> = Vec::new();
+    for_each_seq(2, if args.thorough { 4 } else { 3 }, |ix| {
+        if !ix.is_empty() {
+            free_seqs.push(ix.iter().map(|&i| ["TW", "W"][i].to_string()).collect());
+        }
+    });
+    let n_free_seqs = free_seqs.len();
+    for s in &free_seqs {
+        for (behaviour, statuses) in [("now", vec!["exit7"]), ("eof", vec!["exit7", "exit0", "kill9"]), ("spew-file", vec!["exit7"]), ("spew-pipe", vec!["exit7"]), ("sleep", vec!["exit7"])] {
+            for st in statuses {
+                for stdin in ["inherit", "null", "pipe-kept", "pipe-dropped", "pipe-written-kept"] {
+                    groups.push(WsCase { seq: s.clone(), status: st.into(), mode: "X".into(), fault_k: None, times: 1, stdin: stdin.into(), behaviour: behaviour.into() });
+                }
             }
         }
     }
@@ -2306,8 +2492,8 @@ fn waitseq(args: &Args) -> Report {
         items.push(isolated(format!("w{i}"), move || {
             let mut r = Report::new();
             let sh = Shard::new(&ctx, &format!("w{i}"));
-            for (seq, status, mode) in &chunk {
-                let mut case = WsCase { seq: seq.clone(), status: status.clone(), mode: mode.clone(), fault_k: None, times: 1 };
+            for template in &chunk {
+                let mut case = template.clone();
                 // fault-free first (it tells how many wait4 calls the sequence makes), then EINTR runs:
                 // from the first wait4 call 1, 2, 3, 5 times in a row (thorough: from every call)
                 let mut todo: Vec<(Option<usize>, usize)> = vec![(None, 1)];
@@ -2317,7 +2503,7 @@ fn waitseq(args: &Args) -> Report {
                     i += 1;
                     set_case(&case.to_json().to_string());
                     r.eval();
-                    let res = sh.run_p(|| exec_waitseq(&sh.ctx, &sh.sdir, sh.shm, &case));
+                    let res = run_waitseq(&sh, &case);
                     if !skipped(&res) {
                         r.nontrivial_unique();
                     }
@@ -2331,6 +2517,10 @@ fn waitseq(args: &Args) -> Report {
                         }
                         for k in 0..n_wait4.min(if thorough { usize::MAX } else { 1 }) {
                             for t in REPEATS {
+                                // (free-running children: one interrupted wait4, thorough: two as well)
+                                if case.stdin != "held" && t > if thorough { 2 } else { 1 } {
+                                    continue;
+                                }
                                 todo.push((Some(k), t));
                             }
                         }
@@ -2343,12 +2533,13 @@ fn waitseq(args: &Args) -> Report {
     }
     let mut r = run_isolated(items, &args.out, "C13");
     let _ = std::fs::remove_dir_all(&ctx.root);
-    r.rule = "all sequences of 1..=L letters over {TW = try_wait, W = wait, X = release the child} with one release at most and no W before it, on a child that reads its stdin pipe (whose parent end the harness holds) to EOF and then ends as told; x the child's end {exit 7, exit 0, SIGKILL} x release mode {X: close + waitid(WNOWAIT) until terminated, R: close only, the program lingers} x {no fault, EINTR on the k-th wait4 call}. Reference: before the release try_wait = None and nothing is reaped; after it the first W/TW reports the child's real status and reaps, every later call repeats it. Each case is generated once and really executes the sequence (non-trivial).".into();
+    r.rule = "all sequences of 1..=L letters over {TW = try_wait, W = wait, X = release the child} with one release at most and no W before it, on a child that reads its stdin pipe (whose parent end the harness holds) to EOF and then ends as told; x the child's end {exit 7, exit 0, SIGKILL} x release mode {X: close + waitid(WNOWAIT) until terminated, R: close only, the program lingers} x {no fault, EINTR on the k-th wait4 call}. Reference: before the release try_wait = None and nothing is reaped; after it the first W/TW reports the child's real status and reaps, every later call repeats it. Second family: children that end by themselves or when wait closes their stdin (see bounds.free_running_children): wait must return the real status within the watchdog, try_wait may see the child running or ended, then the same repeat/reap rules. Each case is generated once and really executes the sequence (non-trivial).".into();
     r.bound("tier", if args.thorough { "thorough" } else { "quick" });
     r.bound("tiny_std_start_feature", WITH_START);
     r.bound("max_sequence_length", max_len as u64);
     r.bound("sequences", seqs.len() as u64);
     r.bound("sequence_x_status_x_mode", n_groups as u64);
+    r.bound("free_running_children", format!("{n_free_seqs} sequences over {{TW, W}} (length <= {}) x program {{ends at once, reads stdin to EOF then exit 7 / exit 0 / SIGKILL, 100000 bytes to stdout (the caller's file / a pipe drained first), sleeps 60 ms}} x stdin {{Inherit(/dev/null), Null, MakePipe left in Child, MakePipe dropped by the caller, MakePipe written to and left in Child}}", if args.thorough { 4 } else { 3 }));
     r.bound("wait4_faults", if args.thorough { "EINTR 1,2,3,5 times in a row starting at each wait4 call of the sequence" } else { "EINTR 1,2,3,5 times in a row starting at the first wait4 call" });
     r.bound("linger_ms", LINGER_MS as u64);
     r.bound("wall_s", (t0.elapsed().as_millis() as u64) as f64 / 1000.0);
@@ -2362,7 +2553,7 @@ fn replay_waitseq(v: &Value) -> Report {
     let case = WsCase::from_json(v);
     let sh = Shard::new(&ctx, "replay");
     let mut r = Report::new();
-    let res = sh.run_p(|| exec_waitseq(&sh.ctx, &sh.sdir, sh.shm, &case));
+    let res = run_waitseq(&sh, &case);
     judge_waitseq(&case, &res, &mut r);
     let _ = std::fs::remove_dir_all(&ctx.root);
     match &res {
